@@ -406,16 +406,21 @@ class Gen:
             r = rng.random()
             if r < 0.5:
                 n = rng.choice([1, 2, 2, 3, 4])
-                # a native set among the items could be iterated by a nested target (hash order): wrap it
-                parts = [src if kind != "S" else self.wrap(src) for src, kind in (self.expr(1) for _ in range(n))]
-                rhs, kind = ("(" + ", ".join(parts) + ("," if n == 1 else "") + ")"), "C"
+                items = [self.expr(1) for _ in range(n)]
+                tgt = self.unpack_target(d, "C")
+                # a nested target iterates an item natively: a native set (hash order is not the model's) may hide behind
+                # any expression of unknown kind (conditional, and/or, walrus, variable), so with a nested target only
+                # items known to be recording-valued or ordered native containers stay unwrapped; sets are always wrapped
+                nested = "(" in tgt
+                parts = [src if (kind in ("R", "C", "D") or (kind == "N" and not nested)) else self.wrap(src) for src, kind in items]
+                rhs = "(" + ", ".join(parts) + ("," if n == 1 else "") + ")"
                 if rng.random() < 0.4:
                     rhs = "[" + ", ".join(parts) + "]"
             else:
                 rhs, kind = self.expr(d)
                 rhs = self.as_iter((rhs, kind))
                 kind = kind if kind in ("R", "C", "D") else "R"
-            tgt = self.unpack_target(d, kind)
+                tgt = self.unpack_target(d, kind)
             if rng.random() < 0.2:
                 tgt = "[" + tgt.rstrip(",") + "]"
             return f"{tgt} = {rhs}"
